@@ -28,6 +28,10 @@ type Inst struct {
 	Fn       string
 	Params   map[string]string
 	MapOrder bool
+	// EngineReplay: the harness overrides concrete dependency functions (e.g. the EVM interpreter), which a native build
+	// cannot do; its counterexamples are confirmed by concrete re-execution in the SSA interpreter (inputs pinned to the
+	// model, no solver involved) instead of natively, and it contributes no native validation traces.
+	EngineReplay bool
 }
 
 type PropSpec struct {
@@ -250,6 +254,9 @@ func (e *Env) RunProperty(id string) int {
 		}
 		r.Workers, r.SolverKind, r.TimeoutMs, r.DumpDir, r.MapOrder = e.Workers, e.Solver, e.TimeoutMs, e.Dump, in.MapOrder
 		r.TraceBudget = 2
+		if in.EngineReplay {
+			r.TraceBudget = 0
+		}
 		r.Explore()
 		fmt.Printf("[%s] %s: paths=%d obligations=%d discharged=%d inconclusive=%d cex=%d reach=%d wall=%.1fs\n", id, instName(in), r.Paths, r.Obligations, r.Discharged, len(r.Inconclusive), len(r.Violations), len(r.Reach), r.Wall.Seconds())
 		for _, er := range r.Errors {
@@ -273,6 +280,12 @@ func (e *Env) RunProperty(id string) int {
 		kind string // "cex" | "trace"
 	}
 	byPkg := map[string][]pending{}
+	type engineReplay struct {
+		inst Inst
+		file string
+		cex  *cexFile
+	}
+	var engineCex []engineReplay
 	n := 0
 	for _, ir := range results {
 		groups := map[string]int{}
@@ -287,6 +300,10 @@ func (e *Env) RunProperty(id string) int {
 			f := filepath.Join(outDir, fmt.Sprintf("cex-%d.json", n))
 			b, _ := json.MarshalIndent(c, "", " ")
 			os.WriteFile(f, b, 0o644)
+			if ir.Inst.EngineReplay {
+				engineCex = append(engineCex, engineReplay{ir.Inst, f, c})
+				continue
+			}
 			byPkg[ir.Inst.Pkg] = append(byPkg[ir.Inst.Pkg], pending{f, c, "cex"})
 		}
 		for _, tr := range ir.Run.Traces {
@@ -300,6 +317,36 @@ func (e *Env) RunProperty(id string) int {
 	}
 	violations, knownHits, tracesOK := 0, 0, 0
 	var vioLines []string
+	for _, ec := range engineCex {
+		r, err := gosym.NewRun(P, gosym.HaqqMod+"/"+ec.inst.Pkg, ec.inst.Fn, ec.inst.Params)
+		if err != nil {
+			problems = append(problems, err.Error())
+			continue
+		}
+		r.Workers, r.SolverKind, r.TimeoutMs, r.MapOrder, r.Pinned = 1, e.Solver, e.TimeoutMs, ec.inst.MapOrder, ec.cex.Model
+		r.Explore()
+		confirmed := false
+		for _, v := range r.Violations {
+			if v.Msg == ec.cex.Msg {
+				confirmed = true
+			}
+		}
+		if !confirmed {
+			problems = append(problems, fmt.Sprintf("ENCODING-MISMATCH: counterexample %s (%s) is not confirmed by concrete re-execution (ends: %v, errors: %v)", ec.file, ec.cex.Msg, r.PathEnds, r.Errors))
+			continue
+		}
+		if k := matchKnown(known, id, ec.cex); k != nil {
+			knownHits++
+			line := fmt.Sprintf("KNOWN-FINDING: property=%s %s: %s", id, k.ID, k.What)
+			if !contains(vioLines, line) {
+				vioLines = append(vioLines, line)
+			}
+			continue
+		}
+		violations++
+		vioLines = append(vioLines, fmt.Sprintf("VIOLATION property=%s replay=%s", id, ec.file))
+		fmt.Printf("  counterexample (%s, confirmed by concrete re-execution of the SSA): %s: %s model=%v\n", ec.cex.Harness, ec.cex.Kind, ec.cex.Msg, ec.cex.Model)
+	}
 	if !e.NoReplay {
 		pkgs := make([]string, 0, len(byPkg))
 		for p := range byPkg {
